@@ -17,6 +17,7 @@ EXPLANATION = (
     "of the same arg. NOT decided: conservation as an equality between argv and reported values; short-cluster slicing "
     "arithmetic inside clap_lex (C13)."
     ' R2.4 (added): react cuts delimited values with OsStrExt::split as long as it reads a value delimiter (a hand-written cutting loop is a violation).'
+    " R2.4 lemma (added): OsStrExt::find reaches its scan whenever len >= needle.len() and walks to the last start position (contains/split/split_once sit on it). R2.A accessor layer (lib/accessors.py): for the is_*_set / get_* accessors this property's rules name — the bool builder sets and unsets one flag on the right edges and the predicate reads that same flag; builder scope (global/local) as in audit/setting_scope.tsv; no two predicates/builders share a flag; setting/unset_setting/global_setting/is_set forward to the right flag word, the flag word is |=bit / &=!bit / &bit!=0 with bit = 1<<discriminant, _propagate_subcommand hands g_settings to the child's settings and g_settings; plain field getters return their field."
 )
 TRUSTED = ["rustc MIR", "clapfacts"]
 ASSUMPTIONS = ["user value parsers return a value for the raw string they are given (C04)"]
